@@ -200,14 +200,14 @@ func init() {
 		q, t int
 		desc string
 	}{
-		{"X-same", xSame, 1, 2, "Call, CallAsync and Start on one key"},
-		{"X-after", xAfter, 1, 2, "CallAfter(10ms), Call and StartAfter(5ms) on one key (virtual time)"},
-		{"X-rate", xRate, 1, 2, "two rate-limited calls (resolve-to-return gap of 10ms) and a plain Call on one key"},
-		{"X-noresolve", xNoResolve, 2, 3, "a work function that returns without resolving, and a plain Call, on one key"},
-		{"X-indep", xIndep, 2, 3, "key A's work function blocks until a Call on key B has returned"},
+		{"X-same", xSame, 3, 4, "Call, CallAsync and Start on one key"},
+		{"X-after", xAfter, 3, 4, "CallAfter(10ms), Call and StartAfter(5ms) on one key (virtual time)"},
+		{"X-rate", xRate, 3, 4, "two rate-limited calls (resolve-to-return gap of 10ms) and a plain Call on one key"},
+		{"X-noresolve", xNoResolve, 3, 4, "a work function that returns without resolving, and a plain Call, on one key"},
+		{"X-indep", xIndep, 3, 4, "key A's work function blocks until a Call on key B has returned"},
 	} {
 		vrt.Register(&vrt.Scenario{Name: s.name, Props: []string{"C09:overlap,key-", "C10", "C11:race", "C12:goroutine-leak"},
-			Quick: s.q, Thorough: s.t, Desc: s.desc, Run: s.run, Check: exclusiveCheck})
+			Quick: s.q, Thorough: s.t, Desc: s.desc, Opts: vrt.Options{Delay: true}, Run: s.run, Check: exclusiveCheck})
 	}
 }
 
@@ -223,6 +223,57 @@ func xNoResolveStart() {
 
 func init() {
 	vrt.Register(&vrt.Scenario{Name: "X-noresolve-start", Props: []string{"C09:overlap,key-", "C10", "C11:race", "C12:goroutine-leak"},
-		Quick: 2, Thorough: 3, Desc: "StartAfter(5ms) and a blocking call whose work function never resolves, coalesced on one key",
-		Run: xNoResolveStart, Check: exclusiveCheck})
+		Quick: 3, Thorough: 4, Desc: "StartAfter(5ms) and a blocking call whose work function never resolves, coalesced on one key",
+		Opts: vrt.Options{Delay: true}, Run: xNoResolveStart, Check: exclusiveCheck})
+}
+
+// X-successor: calls of mixed styles arrive, in an enumerated order, while an execution of the
+// key is in progress (its work function is held on a channel), i.e. they are the registrants of
+// the successor item; then the execution is released.
+func xSuccessor() {
+	x := &xEnv{e: new(Exclusive)}
+	started, release := make(chan struct{}), make(chan struct{})
+	x.wg.Add(1)
+	go func() {
+		defer x.wg.Done()
+		vrt.Log("call", 1, "call", "k", "w1")
+		r, err := x.e.Call("k", func() (interface{}, error) {
+			vrt.Log("start", "w1", "k")
+			close(started)
+			<-release
+			vrt.Log("end", "w1", "k")
+			return "w1", nil
+		})
+		rs, es := outcomeStr(r, err)
+		vrt.Log("outcome", 1, rs, es)
+	}()
+	<-started
+	order := [][]int{{0, 1, 2}, {0, 2, 1}, {1, 0, 2}, {1, 2, 0}, {2, 0, 1}, {2, 1, 0}}[vrt.Choose(6, 0)]
+	for _, k := range order {
+		switch k {
+		case 0:
+			vrt.Log("call", 2, "start", "k", "w2")
+			x.e.Start("k", xWork("w2", "k"))
+			vrt.Log("started", 2)
+		default:
+			id, name := 2+k, fmt.Sprintf("w%d", 2+k)
+			vrt.Log("call", id, "async", "k", name)
+			ch := x.e.CallAsync("k", xWork(name, "k"))
+			x.wg.Add(1)
+			go func() {
+				defer x.wg.Done()
+				o := <-ch
+				rs, es := outcomeStr(o.Result, o.Error)
+				vrt.Log("outcome", id, rs, es)
+			}()
+		}
+	}
+	close(release)
+	x.finish("k")
+}
+
+func init() {
+	vrt.Register(&vrt.Scenario{Name: "X-successor", Props: []string{"C09:overlap,key-", "C10", "C11:race", "C12:goroutine-leak"},
+		Quick: 3, Thorough: 4, Desc: "Start and two CallAsync arrive (in every order) while an execution of the key is in progress, then it is released",
+		Opts: vrt.Options{Delay: true}, Run: xSuccessor, Check: exclusiveCheck})
 }
